@@ -104,15 +104,22 @@ func init() {
 	})
 	register(&Property{
 		ID: "C55",
-		Explanation: "Decides the status plumbing from an unreadable item to the exit code, not which operating-system errors occur: (incomplete-status) the closure installed as Archiver.Error in runBackup clears the captured `success` flag on every path, nothing sets the flag back to true, every return of runBackup that can yield a nil error after Archiver.Snapshot lies behind the success==true edge, ErrInvalidSourceData is returned only after Snapshot succeeded (the snapshot is saved first), and inaccessible targets reported by collectTargets clear the flag without aborting the run; (exit-table) by specialised evaluation of main: with err == ErrInvalidSourceData every path reaches Exit with status 3, with err == nil status 0, with any other non-nil error never 0; the command's error reaches that switch unchanged (overwritten only when nil or ErrOK; the backup command's RunE returns runBackup's result itself); (skip-implies-hook) in every Archiver method, after a source operation (fs.FS / fs.File / toNoder method, save, saveDir, saveTree, nodeFromFileInfo, dirPathToNode, dirToNodeAndEntries) failed, no return with a possibly-nil error is reachable without a call of Archiver.error (directly or through a closure that always calls it); save's error filter turns only os.ErrNotExist into nil (vanished files do not count, as the statement says); treeSaver.save drops a failed item only after its error hook, which is Archiver.Error. Not decided: errors inside the file saver's chunk loop reach the tree saver through the future's result (flow through a channel), and cobra returns RunE's error unchanged.",
+		Explanation: "Decides the status plumbing from an unreadable item to the exit code, not which operating-system errors occur: (incomplete-status) the closure installed as Archiver.Error in runBackup clears the captured `success` flag on every path, nothing sets the flag back to true, every return of runBackup that can yield a nil error after Archiver.Snapshot lies behind the success==true edge, ErrInvalidSourceData is returned only after Snapshot succeeded (the snapshot is saved first), and inaccessible targets reported by collectTargets clear the flag without aborting the run; (exit-table) by specialised evaluation of main: with err == ErrInvalidSourceData every path reaches Exit with status 3, with err == nil status 0, with any other non-nil error never 0; the command's error reaches that switch unchanged (overwritten only when nil or ErrOK; the backup command's RunE returns runBackup's result itself); (skip-implies-hook) in every Archiver method, after a source operation (fs.FS / fs.File / toNoder method, save, saveDir, saveTree, nodeFromFileInfo, dirPathToNode, dirToNodeAndEntries) failed, no return with a possibly-nil error is reachable without a call of Archiver.error (directly or through a closure that always calls it); save's error filter turns only os.ErrNotExist into nil (vanished files do not count, as the statement says), and the errors of opening the item — the metadata open, the re-open for reading that follows the lstat, and the open of a directory inside saveDir — pass that filter before the hook or the return (genuine defect, fixed in /repo: an item that vanished between lstat and open made the backup exit 3); treeSaver.save drops a failed item only after its error hook, which is Archiver.Error; (type-change-noticed) an item replaced by a symbolic link between its lstat and its open is noticed (and so reported) only because the open refuses to follow links: save opens the item with fs.O_NOFOLLOW, localFile.MakeReadable re-opens with the flag word stored in the handle, and newLocalFile stores the word it was given and passes it to os.OpenFile (sanitizeFlags is the identity where O_NOFOLLOW is an open flag) — added after a seeded change that re-opened with O_RDONLY. Not decided: errors inside the file saver's chunk loop reach the tree saver through the future's result (flow through a channel), and cobra returns RunE's error unchanged.",
 		Assumptions: commonAssumptions,
 		Technique:   "static analysis: path-sensitive reachability with nil-ness facts from failure edges + specialised evaluation of main's exit switch + CFG edge cuts (go/ssa)",
 		Run: func(c *eng.Ctx) {
 			ruleErrorHook(c)
 			ruleExitTable(c)
 			ruleSkipImpliesHook(c)
+			ruleTypeChangeNoticed(c)
 		},
 		Controls: []Control{
+			{Name: "vanished-before-reopen-is-reported", File: "internal/archiver/archiver.go",
+				Old: "			// ignore if file disappeared since it was returned by readdir\n			return filterError(filterNotExist(err))\n		}\n\n		fi, err := meta.Stat()\n		if err != nil {\n			debug.Log(\"stat() on opened", New: "			return filterError(err)\n		}\n\n		fi, err := meta.Stat()\n		if err != nil {\n			debug.Log(\"stat() on opened", Rule: "skip-implies-hook"},
+			{Name: "save-follows-links", File: "internal/archiver/archiver.go",
+				Old: "	meta, err := arch.FS.OpenFile(target, fs.O_NOFOLLOW, true)", New: "	meta, err := arch.FS.OpenFile(target, fs.O_RDONLY, true)", Rule: "type-change-noticed"},
+			{Name: "handle-forgets-its-flags", File: "internal/fs/fs_local.go",
+				Old: "		name: name,\n		flag: flag,\n		f:    f,", New: "		name: name,\n		flag: flag &^ O_NOFOLLOW,\n		f:    f,", Rule: "type-change-noticed"},
 			{Name: "hook-forgets-flag-for-filtered-errors", File: "cmd/restic/cmd_backup.go",
 				Old: "		success = false\n		reterr := progressReporter.Error(item, err)", New: "		reterr := progressReporter.Error(item, err)\n		if reterr != nil {\n			success = false\n		}", Rule: "incomplete-status"},
 			{Name: "incomplete-status-lost-when-scanner-ok", File: "cmd/restic/cmd_backup.go",
